@@ -404,6 +404,11 @@ func defLines(g *Gen, d *refDef) []mline {
 	if g.chance(1, 2) {
 		lab = g.respell(lab)
 	}
+	if i := strings.IndexByte(lab, ' '); i > 0 && g.chance(1, 8) {
+		// the label continues on the next line
+		lab = lab[:i] + "\n" + lab[i+1:]
+		g.St.add("ref-def:multi-line-label")
+	}
 	s := strings.Repeat(" ", g.pick(4)) + "[" + lab + "]:"
 	var out []mline
 	if g.chance(1, 6) {
@@ -426,7 +431,14 @@ func defLines(g *Gen, d *refDef) []mline {
 	}
 	s += strings.Repeat(" ", g.pick(3))
 	out = append(out, mline{s: s})
-	return out
+	// labels and titles may contain line endings
+	var split []mline
+	for _, l := range out {
+		for _, part := range strings.Split(l.s, "\n") {
+			split = append(split, mline{s: part})
+		}
+	}
+	return split
 }
 
 // genBlocks draws the children of a container.
